@@ -226,6 +226,9 @@ func (s *Signer) signDSSE(payloadText string, specs []sigSpec) JObj {
 
 type Files map[string]string // relative path -> content
 
+// artsNamePrefix is put in front of every artifact name a link records (set per chain).
+var artsNamePrefix string
+
 func (f Files) arts() JObj {
 	names := make([]string, 0, len(f))
 	for n := range f {
@@ -234,7 +237,7 @@ func (f Files) arts() JObj {
 	sort.Strings(names)
 	o := JObj{}
 	for _, n := range names {
-		o = append(o, JKV{n, O("sha256", sha256hex(f[n]))})
+		o = append(o, JKV{artsNamePrefix + n, O("sha256", sha256hex(f[n]))})
 	}
 	return o
 }
@@ -249,7 +252,7 @@ func (f Files) artsAlg(alg string) JObj {
 	o := JObj{}
 	for _, n := range names {
 		h := sha512.Sum512([]byte(f[n]))
-		o = append(o, JKV{n, O(alg, hex.EncodeToString(h[:]))})
+		o = append(o, JKV{artsNamePrefix + n, O(alg, hex.EncodeToString(h[:]))})
 	}
 	return o
 }
